@@ -157,6 +157,16 @@ def gfinish (cfg : ICfg) : Nat → GState → GState
   | 0, s => s
   | f + 1, s => if gallFin cfg s then s else gfinish cfg f (groundRobin cfg s)
 
+/-- completion phase of a waker-respecting executor: rounds that poll the tasks that are woken at
+    the start of the round (stops when there is none) -/
+def gfinishW (cfg : ICfg) : Nat → GState → GState
+  | 0, s => s
+  | f + 1, s =>
+    if gallFin cfg s then s else
+    match grunnable cfg s with
+    | [] => s
+    | R => gfinishW cfg f (gexec cfg R s)
+
 /-! ### the static reading -/
 
 /-- the keys a task looks up when every lookup observes the supplier's own outcome
